@@ -11,6 +11,7 @@
 import Psa.Proofs.EncBound
 import Psa.Cbor.Consumes
 import Psa.Tie.Encoding
+import Psa.Tie.Facts
 namespace Psa.Props.C06
 open Psa Psa.Model Psa.Model.Enc Psa.Proofs.Enc
 
@@ -51,6 +52,12 @@ theorem header_reader_shrinks (ai : Nat) (data r : Bytes) (n : Nat) (hai : ai < 
     (h : Generated.processAdditionalInfo ai data = .ok (n, r)) : r.length ≤ data.length := by
   rw [Tie.Enc.gen_pai_eq_model ai data hai] at h
   exact pai_len ai data r n h
+
+/-- T2: no buffer or map anywhere in the two packages is sized from a value read off the wire (regenerated fact: the
+    only sized `make` calls copy slices already held) -/
+theorem no_allocation_sized_from_input : Generated.Facts.sizedMakes =
+    [("psatoken", "SwComponents.Values", "len(o.values)"), ("psatoken", "validateAndConvert", "len(vals)")] :=
+  Tie.Facts.sized_makes
 
 -- non-vacuity: the hostile header `ba ff ff ff ff` (2³²−1 entries, no data) is an error, `a0` is the empty map
 example : fromCBOR [0xba, 0xff, 0xff, 0xff, 0xff] = .err eOther := by decide
